@@ -152,7 +152,11 @@ func runCase(r *hx.Run, c hx.Case) {
 			ct = "text/x-alt" + fmt.Sprint(i)
 		}
 		enc := p[0]
-		spec.Parts = append(spec.Parts, bytex.PartSpec{CType: ct, Enc: enc, Prod: bytex.Producer{Chunks: chunk(content)}})
+		src := ""
+		if len(p) > 2 {
+			src = p[2]
+		}
+		spec.Parts = append(spec.Parts, bytex.PartSpec{CType: ct, Enc: enc, Prod: bytex.Producer{Chunks: chunk(content)}, Src: src})
 		e := enc
 		if e == "" {
 			e = msgenc
@@ -164,7 +168,11 @@ func runCase(r *hx.Run, c hx.Case) {
 		for _, f := range items {
 			content := hx.UnHex(f[2])
 			name := string(hx.UnHex(f[1]))
-			fs = append(fs, bytex.FileSpec{Name: name, Enc: f[0], Prod: bytex.Producer{Chunks: chunk(content)}})
+			src := ""
+			if len(f) > 3 {
+				src = f[3]
+			}
+			fs = append(fs, bytex.FileSpec{Name: name, Enc: f[0], Prod: bytex.Producer{Chunks: chunk(content)}, Src: src})
 			e := f[0]
 			if e == "" {
 				e = "base64"
@@ -265,7 +273,11 @@ func runCase(r *hx.Run, c hx.Case) {
 	}
 }
 
+// the builder entry points a file's content can come through (bytex.FileSpec.Src)
+var fileSrcs = []string{"", "buf", "rs", "file", "tpl", "buf"}
+
 func Run(r *hx.Run, replay []hx.Case) {
+	defer bytex.CleanTemp()
 	if replay != nil {
 		for _, c := range replay {
 			if len(c.Args) < 6 {
@@ -294,7 +306,8 @@ func Run(r *hx.Run, replay []hx.Case) {
 					content = pick(bin)
 				}
 			}
-			ps = append(ps, enc+":"+hx.Hex(content))
+			// builder entry point: writer function or string
+			ps = append(ps, enc+":"+hx.Hex(content)+":"+[]string{"", "str"}[(ci/3+i)%2])
 		}
 		for i := 0; i < e; i++ {
 			enc := []string{"", "base64", "8bit"}[(ci+i)%3]
@@ -302,7 +315,7 @@ func Run(r *hx.Run, replay []hx.Case) {
 			if enc == "8bit" {
 				content = txt[(ci+i*3)%len(txt)]
 			}
-			es = append(es, enc+":"+hx.Hex([]byte(names[(ci+i)%len(names)]))+":"+hx.Hex(content))
+			es = append(es, enc+":"+hx.Hex([]byte(names[(ci+i)%len(names)]))+":"+hx.Hex(content)+":"+fileSrcs[(ci/2+i)%len(fileSrcs)])
 		}
 		for i := 0; i < a; i++ {
 			enc := []string{"", "8bit", "base64"}[(ci+i)%3]
@@ -310,7 +323,7 @@ func Run(r *hx.Run, replay []hx.Case) {
 			if enc == "8bit" {
 				content = txt[(ci+i*13)%len(txt)]
 			}
-			as = append(as, enc+":"+hx.Hex([]byte(names[(ci+i+2)%len(names)]))+":"+hx.Hex(content))
+			as = append(as, enc+":"+hx.Hex([]byte(names[(ci+i+2)%len(names)]))+":"+hx.Hex(content)+":"+fileSrcs[(ci/2+i+3)%len(fileSrcs)])
 		}
 		j := func(l []string) string {
 			if len(l) == 0 {
